@@ -618,6 +618,73 @@ RENDER_HARNESSES = {"render": h_render, "render-rt": h_render, "render-lru": h_r
 
 
 # --------------------------------------------------------------------------
+# first-use harness: every execution starts from a freshly imported mako, so that whatever the library
+# initialises lazily at process level (tables, memos, plug-in registries) is uninitialised when the threads start.
+# The templates are compiled before the threads start; the threads only render.
+
+FIRST_USE_TEXT = "${a | entity}|${a | h}|${a | x}|${a | u}|${b | trim, entity}|<%block filter='entity'>${a}</%block>"
+FIRST_USE_ARGS = [{"a": "\u00e9<\"&\u20ac0", "b": " \u00df\u2026 "}, {"a": "\u00fc>'&\u2122 1", "b": "\t\u00f1\u2020"}, {"a": "\u00a92", "b": "\u00ab\u00bb"}]
+
+
+def fresh_mako():
+    """drop every loaded mako module and import the library again (from the bound repository)"""
+    import sys
+
+    for k in [k for k in sys.modules if k == "mako" or k.startswith("mako.")]:
+        del sys.modules[k]
+    core.bind_repo()
+    import mako.template, mako.lookup, mako.filters, mako.runtime  # noqa
+
+
+class FirstUseWorld:
+    def __init__(self, s):
+        fresh_mako()
+        from mako.template import Template
+
+        self.s = s
+        self.templates = [
+            Template(FIRST_USE_TEXT),
+            Template(FIRST_USE_TEXT, output_encoding="ascii", encoding_errors="htmlentityreplace"),
+            Template(FIRST_USE_TEXT, output_encoding="cp1251", encoding_errors="htmlentityreplace"),
+        ]
+
+    def close(self):
+        pass
+
+
+def first_use_solo():
+    if _PROC.get("pid") != os.getpid():
+        _PROC.clear()
+        _PROC["pid"] = os.getpid()
+    if "fusolo" not in _PROC:
+        out = []
+        for i in range(3):
+            w = FirstUseWorld(sched.Scheduler())
+            out.append(w.templates[i].render(**FIRST_USE_ARGS[i]))
+        _PROC["fusolo"] = out
+    return _PROC["fusolo"]
+
+
+def h_first_use(w, nthreads):
+    solos = w.solos
+
+    def mk(i):
+        return lambda: w.templates[i].render(**FIRST_USE_ARGS[i])
+
+    def finish(ex):
+        bad = _results_ok(ex, nthreads)
+        if bad:
+            return [("first-use:exception", "concurrent renders do not raise", "output", bad)]
+        v = []
+        for i in range(nthreads):
+            if ex.results[i][1] != solos[i]:
+                v.append(("first-use:crosstalk", "each render produces exactly its solo output, first use of the escaping filters included", solos[i], ex.results[i][1]))
+        return v
+
+    return [mk(i) for i in range(nthreads)], finish
+
+
+# --------------------------------------------------------------------------
 # running one schedule
 
 
@@ -651,6 +718,30 @@ def trace_prefixes(kind):
 
 
 def run_one(spec, prefix, record=False):
+    if spec[0] == "first-use":
+        return run_first_use(spec, prefix, record)
+    return _run_one(spec, prefix, record)
+
+
+def run_first_use(spec, prefix, record=False):
+    name, nthreads, fine = spec
+    repo = os.path.abspath(core.REPO)
+    s = sched.Scheduler(prefix, trace_files=(os.path.join(repo, "mako", "filters.py"), os.path.join(repo, "mako", "util.py")) if fine else None, record_trace=record, horizon=50000)
+    solos = first_use_solo()
+    w = FirstUseWorld(s)
+    w.solos = solos
+    threads, finish = h_first_use(w, nthreads)
+    for t in threads:
+        s.spawn(t)
+    ex = s.run()
+    if ex.deadlock:
+        return ex, [("first-use:blocked-thread", "no thread is left blocked", "all threads finish", ex.deadlock)]
+    if ex.horizon:
+        return ex, [("first-use:horizon", "execution finishes within the step horizon", "finish", "horizon")]
+    return ex, finish(ex)
+
+
+def _run_one(spec, prefix, record=False):
     """spec = (harness, nthreads, fine)  -> (Execution, violations)"""
     name, nthreads, fine = spec
     names = None
@@ -723,6 +814,9 @@ def specs(tier):
     out.append(("render", 2, False, None))
     out.append(("render", 2, True, 1))  # ~830 line-level points: bound 2 would be ~10^5 executions of 50 ms each
     out.append(("render-lru", 2, True, 1))  # bounded lookup: the unlocked LRU caches (templates, URIs) under concurrent renders
+    out.append(("first-use", 2, True, 1 if q else 2))  # freshly imported library per execution, every line of filters.py / util.py
+    if not q:
+        out.append(("first-use", 3, True, 1))
     out.append(("compile", 2, False, 1 if q else 2))
     out.append(("compile-blocks", 2, True, 1 if q else 2))
     out.append(("compile-calls", 2, True, 1))
